@@ -23,7 +23,7 @@ COMBOS = [(P.T_NULL, "T"), (P.T_PRIVATE, "T"), (P.T_TXT, "T"), (P.T_TXT, "S"), (
 
 HOSTILE = [b" ;reboot", b";id", b"|sh", b"$(id)", b"`id`", b"\nid\n", b" && id", b"'", b'"', b" #", b"\t-x", b"%s%n", b" \\", b">/tmp/x", b"\x00id",
            b"\xff\xfe", b" 1", b"a", b".", b"..", b"-"]
-ADDRS = [b"10.0.0.2", b"0.0.0.0", b"255.255.255.255", b"1.2.3", b"1.2", b"1", b"0x0a.0.0.2", b"012.0.0.2", b"10.0.0.256", b"10.0.0.2.5", b"10.0.0.", b".10.0.0.2",
+ADDRS = [b"10.0.0.2", b"0.0.0.0", b"255.255.255.255", b"192.168.100.200", b"192.168.100.2000", b"192.168.100.200.1", b"1.2.3", b"1.2", b"1", b"0x0a.0.0.2", b"012.0.0.2", b"10.0.0.256", b"10.0.0.2.5", b"10.0.0.", b".10.0.0.2",
          b"10.0.0.2 ", b" 10.0.0.2", b"10.0.0.2\t", b"10.0.0.2\n", b"10.0.0.02", b"+10.0.0.2", b"10.0.0.2x", b"", b"1" * 64, b"1." * 40, b"99999999999", b"4294967295"]
 MTUS = [b"1130", b"200", b"201", b"1500", b"1501", b"0", b"-1", b"+1200", b" 1200", b"1200 ", b"1200;id", b"0x400", b"99999999999", b"2147483648", b"-2147483649", b"", b"1e3", b"12 00"]
 MASKS = [b"27", b"0", b"1", b"8", b"30", b"31", b"32", b"33", b"-1", b"-27", b"64", b"99", b"2147483647", b"-2147483648", b"99999999999", b"27;id", b" 27", b"27 ", b"", b"0x1b", b"+27"]
@@ -42,6 +42,11 @@ def replies(rng, thorough):
             for where in (0, 1):
                 f = list(good); f[i] = (f[i] + h) if where == 0 else (h + f[i])
                 out.append(b"-".join(f))
+            if i < 2:
+                # shortest and longest well-formed quads in front of the hostile text (validation of a bounded copy, prefix matching)
+                for base in (b"1.2.3.4", b"192.168.100.200", b"255.255.255.255"):
+                    f = list(good); f[i] = base + h
+                    out.append(b"-".join(f))
     # structure games: missing / extra fields, other separators, very long
     out += [b"", b"-", b"---", b"10.0.0.1", b"10.0.0.1-10.0.0.2", b"10.0.0.1-10.0.0.2-1130", b"10.0.0.1-10.0.0.2-1130-27-99", b"10.0.0.1-10.0.0.2-1130-27;id",
             b"LNAK", b"LNAKx", b"BADIP", b"BADIPx", b"lnak", b"10.0.0.1_10.0.0.2_1130_27", b"A" * 64 + b"-" + b"B" * 64 + b"-1130-27", b"A" * 65 + b"-10.0.0.2-1130-27",
